@@ -333,7 +333,7 @@ def make_symbolic_origin_harness(bases):
 def _mutating_ops():
     from checks import C10
 
-    return [n for n in C10._ops() if n.startswith(("replace", "dataclasses", "detach", "roundtrip", "as_obj", "from_json", "load-payload", "duplicate", "transform"))]
+    return [n for n in C10._ops() if n.startswith(("replace", "dataclasses", "detach", "roundtrip", "as_obj", "from_json", "load-payload", "failed-load", "duplicate", "transform"))]
 
 
 def make_hash_lifetime_harness(K: int, first_op: str | None = None, trees: list[int] | None = None):
